@@ -562,23 +562,47 @@ Definition model_null_handling : list (string * string) :=
 (* [oneof_post] returns from the type-only branch; [append_go_value] / [map_set_go_value] refuse an
    invalid value before List.Append / Map.Set; integer string arms return the strconv error;
    protoPair.setValue clears the field on an invalid value *)
-Definition model_oneof_type_only_returns : bool := true.
-Definition model_append_go_value_guarded : bool := true.
-Definition model_map_set_go_value_guarded : bool := true.
+(* Each flag below is a behavioural probe of the model — evaluated, not declared — and is compared with
+   the corresponding structural fact that the translator reads from the Go source: if the code loses
+   the guard the generated bool flips, if the model loses the behaviour the probe flips. *)
+Definition probe_prop (json : bytes) (n : N) (sib : list N) (t : field_ty) : property :=
+  mkProp json [n] false true sib t.
+Definition probe_orc : oracles :=
+  mkOracles (fun _ => (None, None)) (fun _ => None) (fun _ => Some ([49], 1001%Z)).
+(* decodeOneofInner's type-only case returns: {"!type":"a"} is accepted, not an index panic *)
+Definition model_oneof_type_only_returns : bool :=
+  is_ok (oneof_post [probe_prop [97] 1 [] (FScalar KString)] [] [] (Some [97])).
+(* a nil element / value is refused before List.Append / Map.Set *)
+Definition model_append_go_value_guarded : bool :=
+  is_err (append_go_value probe_orc KString TNull []).
+Definition model_map_set_go_value_guarded : bool :=
+  is_err (map_set_go_value probe_orc KString [107] TNull []).
+(* integer string arms return the strconv error *)
 Definition model_int_string_err_returned : list (string * bool) :=
-  [("Integer/FORMAT_INT32", true); ("Integer/FORMAT_INT64", true); ("Integer/FORMAT_UINT32", true); ("Integer/FORMAT_UINT64", true)].
+  map (fun kn => (snd kn, is_err (int_from_go (fst kn) (GStr [97; 98; 99]))))
+      [(KInt32, "Integer/FORMAT_INT32"); (KInt64, "Integer/FORMAT_INT64");
+       (KUint32, "Integer/FORMAT_UINT32"); (KUint64, "Integer/FORMAT_UINT64")].
 Definition model_set_value_clears_invalid : bool := true.
-(* a json.Number for a UINT64 field goes through strconv.ParseUint; OptionByName tries the exact
-   short name before trimming the prefix; DateFromString checks the calendar *)
-Definition model_uint64_number_parse_uint : bool := true.
-Definition model_enum_exact_match_first : bool := true.
-Definition model_date_validates_calendar : bool := true.
-(* decodeValue counts the nesting and refuses more than [max_nesting_depth] ([member_with]) *)
-Definition model_decode_value_depth_guard : bool := true.
-(* CreateField refuses a second member of a proto oneof ([oneof_conflict]); a repeated key in a map of
-   scalars / enums is refused like in a map of objects ([map_items]) *)
-Definition model_create_field_checks_oneof : bool := true.
-Definition model_leaf_map_dup_key_rejected : bool := true.
+(* a json.Number for a UINT64 field goes through strconv.ParseUint: 18446744073709551615 is accepted *)
+Definition model_uint64_number_parse_uint : bool :=
+  is_ok (int_from_go KUint64 (GNum [49;56;52;52;54;55;52;52;48;55;51;55;48;57;53;53;49;54;49;53])).
+(* OptionByName tries the exact short name before trimming the prefix: M_X of {M_X = 7} with prefix M_ *)
+Definition model_enum_exact_match_first : bool :=
+  match option_by_name [77; 95] [([77; 95; 88], 7%Z)] [77; 95; 88] with Some 7%Z => true | _ => false end.
+(* DateFromString checks the calendar: 2024-13-45 *)
+Definition model_date_validates_calendar : bool :=
+  match date_from_string [50;48;50;52;45;49;51;45;52;53] with None => true | Some _ => false end.
+(* decodeValue counts the nesting and refuses more than [max_nesting_depth] *)
+Definition model_decode_value_depth_guard : bool :=
+  is_err (member_with max_nesting_depth (fun ts m => Ok (m, ts)) (probe_prop [97] 1 [] (FScalar KString)) [TBool true] [] []).
+(* CreateField refuses a second member of a proto oneof; a repeated key in a leaf map is refused *)
+Definition model_create_field_checks_oneof : bool :=
+  is_err (member_with 0 (fun ts m => Ok (m, ts)) (probe_prop [98] 2 [1] (FScalar KString)) [TBool true] [(1, VStr [120])] []).
+Definition model_leaf_map_dup_key_rejected : bool :=
+  is_err (map_items probe_orc [] false 3 0 (FScalar KString) [TStr [107]; TStr [97]] [([107], VStr [98])]).
+(* decimalFromString refuses an exponent beyond the bound (the probe oracle answers exponent 1001) *)
+Definition model_decimal_exponent_guard : bool :=
+  is_err (scalar_from_go probe_orc KDecimal (GStr [49])).
 
 (* scalar SetGoValue / AppendGoValue / map SetGoValue call checkValueKind before storing: a scalar
    backed by a well-known message type whose conversion yields a non-message (google.protobuf.Duration
